@@ -3,6 +3,7 @@
 package c17
 
 import (
+	"bytes"
 	stdelliptic "crypto/elliptic"
 	"fmt"
 	"math/big"
@@ -121,11 +122,26 @@ func judge(class string, key []byte, o *fw.Obs) {
 		}
 		want := mc.Add(m1, m2)
 		var x, y, xr, yr *big.Int
+		cx1, cy1, cx2, cy2 := new(big.Int).Set(x1), new(big.Int).Set(y1), new(big.Int).Set(x2), new(big.Int).Set(y2)
 		if !o.Try("Add", func() {
 			x, y = c.Add(x1, y1, x2, y2)
 			xr, yr = c.Add(x2, y2, x1, y1)
 		}) {
 			return
+		}
+		if x1.Cmp(cx1) != 0 || y1.Cmp(cy1) != 0 || x2.Cmp(cx2) != 0 || y2.Cmp(cy2) != 0 {
+			o.Fail("mutation", "Add modified its arguments: P=%v Q=%v became (%x,%x) (%x,%x)", m1, m2, x1, y1, x2, y2)
+			return
+		}
+		if weier.Equal(m1, m2) {
+			// the very same *big.Int objects for both operands
+			var xs, ys *big.Int
+			if !o.Try("Add(P, P) with shared arguments", func() { xs, ys = c.Add(x1, y1, x1, y1) }) {
+				return
+			}
+			if !cmp(o, fmt.Sprintf("Add(%v, same objects)", m1), xs, ys, want) {
+				return
+			}
 		}
 		if cmp(o, fmt.Sprintf("Add(%v, %v)", m1, m2), x, y, want) && cmp(o, fmt.Sprintf("Add(%v, %v)", m2, m1), xr, yr, want) {
 			o.Count("add ok")
@@ -159,6 +175,12 @@ func judge(class string, key []byte, o *fw.Obs) {
 		}
 		want := mc.Mul(k, m1)
 		var x, y *big.Int
+		kcopy := append([]byte(nil), kb...)
+		defer func() {
+			if !bytes.Equal(kb, kcopy) {
+				o.Fail("mutation", "%s modified the scalar bytes: %x became %x", class, kcopy, kb)
+			}
+		}()
 		if class == "basemult" {
 			if !o.Try("ScalarBaseMult", func() { x, y = c.ScalarBaseMult(kb) }) {
 				return
